@@ -88,8 +88,8 @@ Eval(e, V, PN) ==
                       ELSE IF e.x \in PN THEN (IF Get(V, e.x).k = "arr" THEN PName(e.x) ELSE Raise("other", e.x))
                       ELSE Get(V, e.x)
     [] e.t = "idx" -> LET i == Eval(e.e, V, PN) IN
-                      IF IsRaise(i) THEN i
-                      ELSE IF ~Has(V, e.x) THEN Raise("BSE", e.x)
+                      IF ~Has(V, e.x) THEN Raise("BSE", e.x)
+                      ELSE IF IsRaise(i) THEN i
                       ELSE LET a == Get(V, e.x) IN
                            IF a.k # "arr" \/ ~IsExact(i) \/ i.k # "int" THEN Unspec
                            ELSE LET fl == Flatten(a.rows) IN
